@@ -121,9 +121,13 @@ WRAPPER_SIGS = {
                    'isinstance(x, numpy.ndarray) and isinstance(y, UTPM)': True}),
     ],
     'pb_dot': [sig(['zbar', 'x', 'y', 'z', 'out'], name='matrix.matrix', zbar=_o('N', 'M'), x=_o('N', 'K'), y=_o('K', 'M'), z=_o('N', 'M'),
-                   out=None, facts={'out is None': True})],
-    'pb_outer': [sig(['zbar', 'x', 'y', 'z', 'out'], zbar=_o('N', 'M'), x=_o('N'), y=_o('M'), z=_o('N', 'M'), facts={'out is None': True})],
-    'pb_solve': [sig(['ybar', 'A', 'x', 'y', 'out'], ybar=_o('N', 'K'), A=_o('N', 'N'), x=_o('N', 'K'), y=_o('N', 'K'), facts={'out is None': True})],
+                   out=None, facts={'out is None': True}),
+               sig(['zbar', 'x', 'y', 'z', 'out'], name='matrix.matrix, out given', zbar=_o('N', 'M'), x=_o('N', 'K'), y=_o('K', 'M'), z=_o('N', 'M'),
+                   out=('tuple_obj', [_o('N', 'K'), _o('K', 'M')]), facts={'out is None': False})],
+    'pb_outer': [sig(['zbar', 'x', 'y', 'z', 'out'], zbar=_o('N', 'M'), x=_o('N'), y=_o('M'), z=_o('N', 'M'), facts={'out is None': True}),
+        sig(['zbar', 'x', 'y', 'z', 'out'], zbar=_o('N', 'M'), x=_o('N'), y=_o('M'), z=_o('N', 'M'), name='out given', out=('tuple_obj', [_o('N'), _o('M')]), facts={'out is None': False})],
+    'pb_solve': [sig(['ybar', 'A', 'x', 'y', 'out'], ybar=_o('N', 'K'), A=_o('N', 'N'), x=_o('N', 'K'), y=_o('N', 'K'), facts={'out is None': True}),
+        sig(['ybar', 'A', 'x', 'y', 'out'], ybar=_o('N', 'K'), A=_o('N', 'N'), x=_o('N', 'K'), y=_o('N', 'K'), name='out given', out=('tuple_obj', [_o('N', 'N'), _o('N', 'K')]), facts={'out is None': False})],
     'solve': [
         sig(['A', 'x', 'out'], name='UTPM.UTPM', A=_o('N', 'N'), x=_o('N', 'K'),
             facts={'isinstance(A, UTPM) and isinstance(x, UTPM)': True, 'out is None': True, 'A_shp[2] != x_shp[2]': False}),
@@ -136,15 +140,22 @@ WRAPPER_SIGS = {
     'qr': [sig(['A', 'out', 'work', 'epsilon'], order_rel={('N', 'M'): 'N'}, A=_o('M', 'N'), facts={'out is None': True})],
     'qr_full': [sig(['A', 'out', 'work'], order_rel={('N', 'M'): 'N'}, A=_o('M', 'N'), facts={'out is None': True})],
     'pb_qr': [sig(['Qbar', 'Rbar', 'A', 'Q', 'R', 'out'], order_rel={('N', 'M'): 'N'}, Qbar=_o('M', 'N'), Rbar=_o('N', 'N'), A=_o('M', 'N'), Q=_o('M', 'N'), R=_o('N', 'N'),
-                  facts={'out is None': True})],
+                  facts={'out is None': True}),
+        sig(['Qbar', 'Rbar', 'A', 'Q', 'R', 'out'], order_rel={('N', 'M'): 'N'}, Qbar=_o('M', 'N'), Rbar=_o('N', 'N'), A=_o('M', 'N'), Q=_o('M', 'N'), R=_o('N', 'N'),
+                  name='out given', out=('tuple_obj', [_o('M', 'N')]), facts={'out is None': False})],
     'pb_qr_full': [sig(['Qbar', 'Rbar', 'A', 'Q', 'R', 'out'], order_rel={('N', 'M'): 'N'}, Qbar=_o('M', 'M'), Rbar=_o('M', 'N'), A=_o('M', 'N'), Q=_o('M', 'M'), R=_o('M', 'N'),
-                       facts={'out is None': True})],
+                       facts={'out is None': True}),
+        sig(['Qbar', 'Rbar', 'A', 'Q', 'R', 'out'], order_rel={('N', 'M'): 'N'}, Qbar=_o('M', 'M'), Rbar=_o('M', 'N'), A=_o('M', 'N'), Q=_o('M', 'M'), R=_o('M', 'N'),
+                       name='out given', out=('tuple_obj', [_o('M', 'N')]), facts={'out is None': False})],
     'pb_diag': [sig(['ybar', 'x', 'y', 'k', 'out'], name='vector', ybar=_o('N', 'N'), x=_o('N'), y=_o('N', 'N'), facts={'out is None': True})],
     'pb_svd': [sig(['Ubar', 'sbar', 'Vbar', 'A', 'U', 's', 'V', 'out'], order_rel={('N', 'M'): 'M'}, Ubar=_o('M', 'M'), sbar=_o('M'), Vbar=_o('N', 'N'), A=_o('M', 'N'),
-                   U=_o('M', 'M'), s=_o('M'), V=_o('N', 'N'), facts={'out is None': True})],
+                   U=_o('M', 'M'), s=_o('M'), V=_o('N', 'N'), facts={'out is None': True}),
+        sig(['Ubar', 'sbar', 'Vbar', 'A', 'U', 's', 'V', 'out'], order_rel={('N', 'M'): 'M'}, Ubar=_o('M', 'M'), sbar=_o('M'), Vbar=_o('N', 'N'), A=_o('M', 'N'),
+                   U=_o('M', 'M'), s=_o('M'), V=_o('N', 'N'), name='out given', out=('tuple_obj', [_o('M', 'N')]), facts={'out is None': False})],
     'pb_trace': [sig(['ybar', 'x', 'y', 'out'], name='wide or square', order_rel={('N', 'M'): 'M'}, ybar=_o(), x=_o('M', 'N'), y=_o(), facts={'out is None': True}),
                  sig(['ybar', 'x', 'y', 'out'], name='tall', order_rel={('N', 'M'): 'N'}, strict=True, ybar=_o(), x=_o('M', 'N'), y=_o(), facts={'out is None': True})],
-    'pb_inv': [sig(['ybar', 'x', 'y', 'out'], ybar=_o('N', 'N'), x=_o('N', 'N'), y=_o('N', 'N'), facts={'out is None': True})],
+    'pb_inv': [sig(['ybar', 'x', 'y', 'out'], ybar=_o('N', 'N'), x=_o('N', 'N'), y=_o('N', 'N'), facts={'out is None': True}),
+        sig(['ybar', 'x', 'y', 'out'], ybar=_o('N', 'N'), x=_o('N', 'N'), y=_o('N', 'N'), name='out given', out=('tuple_obj', [_o('N', 'N')]), facts={'out is None': False})],
 }
 
 
